@@ -87,7 +87,9 @@ def run(pid, module, cfg_text, env=None, workers=None, timeout=900, tag=None, si
     cfg = os.path.join(wd, module + ".cfg")
     with open(cfg, "w") as f:
         f.write(cfg_text)
-    cmd = ["java", "-XX:+UseParallelGC"]
+    # -Xss: RECURSIVE operators of the specifications recurse on the Java stack (one level costs several frames); the default
+    # 1 MB overflowed on 40-unit receivers in the thorough tier of C16
+    cmd = ["java", "-XX:+UseParallelGC", "-Xss64m"]
     if heap:
         cmd.append("-Xmx" + heap)
     cmd += ["-cp", JAR, "tlc2.TLC", "-metadir", meta, "-noGenerateSpecTE",
@@ -170,7 +172,7 @@ def judge(pid, module, records, cfg_text=None, shards=None, env=None, timeout=18
     out, st, tr = [], 0, 0
     for r in rs:
         if r.errors or r.rc != 0:
-            raise Machinery("judge %s failed rc=%s:\n%s" % (module, r.rc, r.stdout[-3000:]))
+            raise Machinery("judge %s failed rc=%s errors=%s:\n%s" % (module, r.rc, [str(x)[:300] for x in r.errors[:3]], r.stdout[-1500:]))
         out.extend(r.records)
         st += r.distinct
         tr += r.generated
